@@ -226,10 +226,19 @@ def check(F, run, tier):
 
     total = 0
     for cls, inv in ((VOL, inv_vol), (CLM, inv_clm)):
-        obs, n, eng = r_index(F, S, cls, inv)
+        # member tables and local buffers alike (a scratch buffer sized by one header field and walked up to another)
+        obs, n, eng = r_index(F, S, cls, inv, only_members=False)
         run.add(obs)
         total += n
-    run.floor("R-INDEX", total, 9)
+    run.floor("R-INDEX", total, 13)
+    # no division or remainder by a value that nothing keeps from being zero (header fields come from the file); none exists
+    # on the reviewed tree, so the positive fixture shows the rule can fire
+    from . import imgcommon as ic
+    o_, _n = ic.divisors_nonzero(F, S, ["/Archive/"])
+    run.add(o_)
+    fxd = [f for f in F.fixture_functions.values() if f.qn == "fixture::RowsThatFit"]
+    hitd = bool(fxd) and any(x.status == "violated" for x in ic.divisors_nonzero(F, S, [], functions=fxd)[0])
+    run.fixture("fixtures/raw_read.cpp: totalBytes / rowBytesFromFile with nothing excluding zero is reported by R-TAINT(divisor)", hitd)
     # fixture: an unguarded subscript must be reported
     fx = [f for f in F.fixture_functions.values() if f.qn == "fixture::Table::Get"]
     hit = False
